@@ -382,7 +382,8 @@ def _c04(o, driver, rng):
     k = 0
     while k < n_cross:
         # half of the budget on scenarios outside every known data-flow finding class (where a difference is never masked)
-        sc = (scorr.gen_scenario, scorr.gen_clean_scenario, scorr.gen_fanin_scenario)[k % 3](rng)
+        sc = (scorr.gen_scenario, scorr.gen_clean_scenario, scorr.gen_fanin_scenario,
+              lambda r: scorr.gen_scenario(r, async_req=True))[k % 4](rng)     # the last: async_requests connections (D18 lived there)
         sc["sparse_persistent"] = False       # omitting a persistent output is a simulator-side contract breach (mosaik warns); see DESIGN.md
         if scorr.nonuniform_cutoff(sc, False):
             continue
@@ -390,6 +391,8 @@ def _c04(o, driver, rng):
         v, r = dt.cross_config(sc, rng)
         runs += r
         o.violations.extend(v)
+        if any(c.get("async") for c in sc["connects"]) or sc.get("extra_async"):
+            continue        # set_data payloads name the sender by its simulator id, which the start order changes: no start-order comparison
         r2, v2 = dt.check_start_orders(sc, rng)
         runs += r2
         if v2:
